@@ -314,14 +314,27 @@ Proof.
 Qed.
 
 Lemma im_new_eq m file off len width :
-  nthN file off = Some len -> nthN file (off + 1) = Some width -> lenN file < 2 ^ 64 ->
+  nthN file off = Some len -> nthN file (off + 1) = Some width -> lenN file < 2 ^ 64 -> 1 <= width <= 64 ->
   im_new m file off = vbind (rm_new m file (off + 2)) (fun d => VOk (mkim len width d)).
 Proof.
-  intros Hn Hw Hf. pose proof (nthN_Some_lt _ _ _ Hw) as Ho. unfold im_new.
+  intros Hn Hw Hf Hwd. pose proof (nthN_Some_lt _ _ _ Hw) as Ho. unfold im_new.
   replace (lenN file <=? off) with false by lia.
   rewrite uadd_ok by lia. cbn [vlift vbind]. replace (lenN file <=? off + 1) with false by lia.
   rewrite (idx_some _ _ _ Hn). cbn [vlift vbind]. rewrite (idx_some _ _ _ Hw). cbn [vlift vbind].
-  rewrite uadd_ok by lia. reflexivity.
+  change bits_WORD_BITS with 64. replace (width =? 0) with false by lia. replace (64 <? width) with false by lia.
+  cbn [orb]. rewrite uadd_ok by lia. reflexivity.
+Qed.
+(* a width element no IntVector has: refused, whatever follows *)
+Lemma im_new_badwidth m file off width :
+  nthN file (off + 1) = Some width -> lenN file < 2 ^ 64 -> width = 0 \/ 64 < width ->
+  im_new m file off = VErr InvalidData.
+Proof.
+  intros Hw Hf Hwd. pose proof (nthN_Some_lt _ _ _ Hw) as Ho. unfold im_new.
+  replace (lenN file <=? off) with false by lia.
+  rewrite uadd_ok by lia. cbn [vlift vbind]. replace (lenN file <=? off + 1) with false by lia.
+  destruct (nthN_lt_Some file off ltac:(lia)) as [len Hn].
+  rewrite (idx_some _ _ _ Hn). cbn [vlift vbind]. rewrite (idx_some _ _ _ Hw). cbn [vlift vbind].
+  change bits_WORD_BITS with 64. replace ((width =? 0) || (64 <? width)) with true by lia. reflexivity.
 Qed.
 Lemma im_new_short1 m file off : lenN file = off + 1 -> lenN file < 2 ^ 64 -> im_new m file off = VErr UnexpectedEof.
 Proof.
@@ -714,10 +727,11 @@ Proof.
 Qed.
 
 Theorem view_cut m tv : forall file off,
+  wf_tval tv ->
   agrees file off (enc tv) -> lenN file < off + lenN (enc tv) -> off + lenN (enc tv) < 2 ^ 61 ->
   view_new m (ty_of tv) file off = VErr UnexpectedEof.
 Proof.
-  induction tv as [xs|ps|bs|bs|r|iv|t|x IH]; intros file off Ha Hl Hf;
+  induction tv as [xs|ps|bs|bs|r|iv|t|x IH]; intros file off Hwf Ha Hl Hf;
     (destruct (N.le_gt_cases (lenN file) off) as [Ho|Ho]; [apply view_new_out; exact Ho|]);
     cbn [enc ty_of view_new] in *.
   - unfold enc_vec in *. rewrite lenN_cons in *. pose proof (agrees_hd _ _ _ _ Ha Ho) as Hn.
@@ -736,14 +750,14 @@ Proof.
     pose proof (agrees_tl _ _ _ _ Ha) as Ha1.
     pose proof (agrees_hd _ _ _ _ Ha1 ltac:(lia)) as Hw.
     pose proof (agrees_tl _ _ _ _ Ha1) as Ha2. replace (off + 1 + 1) with (off + 2) in Ha2 by lia.
-    rewrite (im_new_eq m file off _ _ Hn Hw) by lia.
+    rewrite (im_new_eq m file off _ _ Hn Hw) by (try apply Hwf; lia).
     rewrite (raw_new_cut m (idata iv) file (off + 2) Ha2) by lia. reflexivity.
   - rewrite lenN_cons, lenN_nil in *. lia.
   - rewrite lenN_cons in *. pose proof (enc_nonempty x) as Hne. pose proof (agrees_hd _ _ _ _ Ha Ho) as Hn.
     unfold mo_new. replace (lenN file <=? off) with false by lia.
     rewrite (idx_some _ _ _ Hn). cbn [vlift vbind]. replace (0 <? lenN (enc x)) with true by lia.
     rewrite uadd_ok by lia. cbn [vlift vbind].
-    rewrite (IH file (off + 1) (agrees_tl _ _ _ _ Ha)) by lia. reflexivity.
+    rewrite (IH file (off + 1) Hwf (agrees_tl _ _ _ _ Ha)) by lia. reflexivity.
 Qed.
 
 (* ================================================================== files made of several structures *)
@@ -816,7 +830,7 @@ Proof.
   split; [|split].
   - intros ->. unfold mm_new. rewrite Hlt. reflexivity.
   - intros Hin. apply (view_ok m tv tfile (start pre vals k) (wf_nth _ _ _ Hwf Hk) Hat); lia.
-  - intros Hin. apply (view_cut m tv tfile (start pre vals k) Hat); lia.
+  - intros Hin. apply (view_cut m tv tfile (start pre vals k) (wf_nth _ _ _ Hwf Hk) Hat); lia.
 Qed.
 
 (* ================================================================== the length check before the repair 5f925c7 *)
@@ -971,9 +985,53 @@ Proof.
   destruct (nthN_lt_Some file off Ho) as [len Hn]. rewrite (idx_some _ _ _ Hn). cbn [vlift vbind].
   rewrite uadd_ok by lia. cbn [vlift vbind].
   destruct (nthN_lt_Some file (off + 1) Ho1) as [w Hw]. rewrite (idx_some _ _ _ Hw). cbn [vlift vbind].
+  destruct ((w =? 0) || (bits_WORD_BITS <? w)); [exact I|].
   pose proof (rm_new_any m file (off + 2) Hf) as H.
   destruct (rm_new m file (off + 2)) as [r| | |]; cbn [new_safe vbind] in *; try exact H.
   destruct H as (Hs & Hl). cbn [im_data]. split; [rewrite Hs; f_equal; lia|lia].
+Qed.
+
+(* an integer-vector view that `new` returned has a width the mask table covers (repair ed19660) *)
+Lemma im_new_width m file off i : im_new m file off = VOk i -> 1 <= im_width i <= 64.
+Proof.
+  unfold im_new. destruct (lenN file <=? off); [discriminate|].
+  destruct (uadd m off 1) as [o1|k|s]; cbn [vlift vbind]; try discriminate.
+  destruct (lenN file <=? o1); [discriminate|].
+  destruct (idx file off) as [len|k|s]; cbn [vlift vbind]; try discriminate.
+  destruct (idx file o1) as [w|k|s]; cbn [vlift vbind]; try discriminate.
+  change bits_WORD_BITS with 64.
+  destruct (N.eqb_spec w 0) as [->|Hw0]; cbn [orb]; [discriminate|].
+  destruct (N.ltb_spec 64 w) as [Hgt|Hle]; [discriminate|].
+  destruct (uadd m off 2) as [o2|k|s]; cbn [vlift vbind]; try discriminate.
+  destruct (rm_new m file o2) as [d|k|k|s]; cbn [vbind]; try discriminate.
+  intros E. injection E as <-. cbn [im_width]. lia.
+Qed.
+
+Fixpoint view_int_widths (v : view) : Prop :=
+  match v with
+  | VwInt i => 1 <= im_width i <= 64
+  | VwOpt o => match mo_data o with Some v' => view_int_widths v' | None => True end
+  | _ => True
+  end.
+
+(* no size bound on the file is needed for this one *)
+Theorem any_file_int_width : forall m t file offset,
+  match view_new m t file offset with VOk v => view_int_widths v | _ => True end.
+Proof.
+  intros m t. induction t as [| | | | | |t' IH]; intros file offset; cbn [view_new].
+  - destruct (ms_new m 1 file offset); exact I.
+  - destruct (ms_new m 2 file offset); exact I.
+  - destruct (mb_new m file offset); exact I.
+  - destruct (mstr_new m file offset); exact I.
+  - destruct (rm_new m file offset); exact I.
+  - destruct (im_new m file offset) as [i| | |] eqn:E; cbn [vmap vbind]; try exact I.
+    cbn [view_int_widths]. exact (im_new_width m file offset i E).
+  - unfold mo_new. destruct (lenN file <=? offset); [exact I|].
+    destruct (idx file offset) as [dl|k|s]; cbn [vlift vbind vmap]; try exact I.
+    destruct (0 <? dl); [|exact I].
+    destruct (uadd m offset 1) as [o1|k|s]; cbn [vlift vbind]; try exact I.
+    specialize (IH file o1). destruct (view_new m t' file o1) as [v'| | |]; cbn [vbind]; try exact I.
+    cbn [view_int_widths mo_data]. exact IH.
 Qed.
 
 Definition is_opt (t : vtype) : bool := match t with TyOpt _ => true | _ => false end.
